@@ -195,4 +195,21 @@ var props = []propCfg{
 		LevelNote: "Trusted: the process runner (own process group, 1 GB address-space limit so that runaway recursion ends as a reported fatal error instead of exhausting the machine).",
 		DesignRef: "DESIGN.md section 4, C16",
 	},
+	{
+		ID: "C01", Pkg: "props/c01", Needs: []string{"fc", "gocache"},
+		Tests: []testCfg{
+			{Name: "TestCorpus", ShardsQ: 1, ShardsT: 1},
+			{Name: "TestPrograms", Rapid: true, Quick: 320, Thorough: 6400, ShardsQ: 16, ShardsT: 16},
+		},
+		Rule:      "type-directed generation (rapid) of whole programs of the documented subset: shared record/union declarations (incl. self-referential ones), a prelude with the probe function and generic helpers, 1..8 units (helper functions, a recursive template, an entry function, one printing line in main), bodies built from lets, destructuring, function-valued lets, local functions (closures), lambdas, partial application of user / library / constructor functions, pipes and pipe chains, if/elif/else as statement and value, union match (all arm forms, default, any order) and string match (variable arm / default), records (permuted and qualified literals, field access, _.Field), tuples, slices, the operators, the four string literal forms and standard-library calls; effect probes (trace \"tN\" e) on about a fifth of the sub-expressions and on both sides of && / ||, both if branches and match arms. Oracle: fc must accept, go build must succeed, the binary must exit 0 and its stdout must equal, byte for byte, the trace of the independent reference evaluator (strict, left-to-right, lexical scoping). Plus the hand-kept corpus corpus/seeds/*.fo with hand-derived expected output. Non-trivial = the expected output contains at least one probe line and the program uses at least one of partial application / closure capture / match / if-as-value / pipe / lambda; distinct = hash of the source text.",
+		Technique: "property-based testing (rapid) with a type-directed program generator, differential against an independent reference evaluator; compile-and-run of the emitted Go",
+		Assumptions: []string{
+			"programs stay inside the documented subset written down in DESIGN.md section 3 (each restriction with its source); steering counts are reported in the samples",
+			"known finding D1 (a partial application re-evaluates its supplied arguments at every call) is excluded by construction: supplied arguments of stored/passed partial applications are atoms",
+			"the display model for %v is the one in harness/lang/eval.go (self-tested against fmt in props/c01 TestDisplayModel)",
+		},
+		LevelText: "Generated-input search over whole programs with feature interactions, decided by compiling and running what fc emits against an evaluator that shares no code with fc. Hundreds (quick) to thousands (thorough) of programs of dozens of lines each; failures are shrunk by rapid to a small program and saved as source + expected output. Exploration: it cannot establish absence and covers the documented subset only.",
+		LevelNote: "Trusted: the reference evaluator and display model (harness/lang), the Go toolchain. The generator avoids constructs the documents do not promise (DESIGN.md section 3).",
+		DesignRef: "DESIGN.md section 4, C01",
+	},
 }
